@@ -221,3 +221,33 @@ contract(M + ':_check_capacity',
 invariant(M + ':_check_capacity', 0, 'for limit in limits',
           ['forall(lambda j: implies(0 <= j and j < _i, '
            ' fits_limit(rsrc, limits[j], LDAP_allocs, old_id_of(allocation, cell))), "Int")'])
+
+
+# ---------------------------------------------------------------- who calls the check: reservation create / update
+# The REST handlers are closures of API.__init__ (class _ReservationAPI).  The property is about what is *accepted*:
+# the write to the directory must be preceded, on every path, by the acceptance check for the same reservation.
+ufunc('rid_alloc', ['Str'], 'Name')       # rsrc_id.rsplit('/', 1) = [allocation, cell]
+ufunc('rid_cell', ['Str'], 'Name')
+contract('lib:AdminCellAlloc.get', types={'$params': ['self', 'ident', 'dirty'], '$defaults': {'dirty': False},
+                                          'return': 'RsrcRec'},
+         ensures=['valid_cpu(result["cpu"])', 'valid_size(result["disk"])', 'valid_size(result["memory"])'],
+         modifies=['alloc'], assumed=True, note='reads the stored reservation (LDAP): schema-valid')
+contract('lib:AdminCellAlloc.update', types={'$params': ['self', 'ident', 'obj']}, modifies=['alloc'], assumed=True,
+         note='writes the reservation (LDAP)')
+contract('lib:AdminCellAlloc.create', types={'$params': ['self', 'ident', 'obj']}, modifies=['alloc'], assumed=True,
+         note='writes the reservation (LDAP)')
+
+contract(M + ':API._ReservationAPI.update',
+         types={'rsrc_id': 'Str', 'rsrc': 'RsrcRec', 'allocation': 'Name', 'cell': 'Name', 'return': 'RsrcRec',
+                'cell_alloc': 'RsrcRec'},
+         requires=['valid_cpu(rsrc["cpu"])', 'valid_size(rsrc["disk"])', 'valid_size(rsrc["memory"])'],
+         # rejected (InvalidInputError) or a malformed id (no '/': excluded by the REST schema): nothing is written
+         raises={'InvalidInputError': [], 'ValueError': []},
+         modifies=['alloc', ('RsrcRec.cpu', 'lambda r: True'), ('RsrcRec.disk', 'lambda r: True'),
+                   ('RsrcRec.memory', 'lambda r: True'), ('RsrcRec.partition', 'lambda r: True'),
+                   ('RsrcRec.traits', 'lambda r: True'), ('RsrcRec.has_traits', 'lambda r: True')],
+         props=['C19'])
+site(M + ':API._ReservationAPI.update', 'AdminCellAlloc.update', ordinal=1, asserts=[
+    # the directory write is reached only for a reservation that passed the acceptance check
+    'fits_all(rsrc, old_id_of(allocation, cell))',
+])
